@@ -79,6 +79,14 @@ def run(ctx, prop):
     work = [("witness", w) for w in F.witness_cases(prop)]
     work.append(("gen", gen.coverage_case("C11-coverage")))
     work.append(("gen", gen.coverage_case3("C11-coverage3")))
+    work.append(("gen", gen.coverage_case2("C11-coverage2")))
+    # inputs of repaired defects (fixes 373fee2, c29f3ed): must build warning-clean now
+    import glob
+    import json
+    for fpath in sorted(glob.glob(os.path.join(C.VERIF, "corpus", "regress", "k11_*.json"))):
+        rc_ = json.load(open(fpath))
+        rc_.pop("finding", None)
+        work.append(("gen", rc_))
     # the usual Mink naming, in both spellings of the file name, with file-level declarations
     # the interface uses (the Rust backend merges the interface into the file-level module)
     for fname in ("ishape.idl", "IShape.idl", "Ishape.idl"):
